@@ -488,8 +488,24 @@ fn parts(tier: Tier) -> Vec<PartDef> {
             "control-requests-during-a-check",
             Cfg::new("C05/control-requests-during-a-check").dev(tier.pick(0, 1)).free(&["options", "inject", "policy.check", "server.update", "reboot_refusals"]),
             json!({"driver": "the C11 one-request harness: every operation of the flow blocks, a scheduled or on-demand request is injected at every step, both select! orders", "deviation_bound": tier.pick(0, 1),
-                   "oracle": "every request lies inside an allowed check and carries the install source and interactivity the policy returned for that check"}),
-            move |ctx| crate::props::c11::run_filtered(ctx, tier, &["policy returned", "outside a check the policy allowed", "carries interactivity"]),
+                   "oracle": "every request lies inside an allowed check and carries the install source and interactivity the policy returned for that check; plus the whole consent oracle of this property (installer only after approval, reboot only after a clean install needing one whose latest answer was yes) on the same executions"}),
+            move |ctx| crate::props::c11::run_judged_by(ctx, tier, &|log| {
+                requests_follow_policy(log)?;
+                oracle(log)
+            }),
+        ),
+        PartDef::new(
+            "consent-in-histories",
+            Cfg::new("C05/consent-in-histories"),
+            json!({"driver": "the C08 history harness: histories of checks (15 classes), pings, end of wait and restarts", "history_length": format!("0..{}", tier.pick(3, 4)),
+                   "oracle": "this property's consent oracle on every history (segments between restarts)", "exploration": "full product"}),
+            move |ctx| crate::props::c08::run_judged_by(ctx, tier.pick(3, 4), false, &|log, _cup, _bad| {
+                for seg in log.split(|o| matches!(o, Obs::Note(n) if n == "RESTART")) {
+                    requests_follow_policy(seg)?;
+                    oracle(seg)?;
+                }
+                Ok(())
+            }),
         ),
         PartDef::new(
             "invalid-app-sets",
